@@ -199,6 +199,31 @@ func init() {
 		if err != nil {
 			return "ok"
 		}
+		// two files walked side by side: after its last paragraph a verified reader is at its end,
+		// whatever other readers were opened in between (buffers recycled between readers)
+		{
+			n := 0
+			if r0, err := control.NewParagraphReader(strings.NewReader(signed), &kr); err == nil {
+				ps, _ := r0.All()
+				n = len(ps)
+			}
+			for round := 0; round < 40 && n > 0; round++ {
+				r1, err := control.NewParagraphReader(strings.NewReader(signed), &kr)
+				if err != nil {
+					break
+				}
+				for i := 0; i < n; i++ {
+					r1.Next()
+				}
+				r2, err := control.NewParagraphReader(strings.NewReader(other), nil)
+				if err == nil && round%2 == 1 {
+					r2.Next()
+				}
+				if p, err := r1.Next(); err == nil && p != nil && r1.Signer() != nil {
+					return fmt.Sprintf("FAIL after its %d paragraphs a verified reader hands out %s once another reader was opened (round %d)", n, clipStr(dumpParas([]control.Paragraph{*p}), 200), round)
+				}
+			}
+		}
 		for _, size := range []int{4096, 16, 8192} {
 			for _, misuse := range []string{"reset", "read", "discard"} {
 				br := bufio.NewReaderSize(strings.NewReader(signed+"\n"+other), size)
